@@ -3,6 +3,8 @@
 The same hint and object *shape* are instantiated with instrumented containers (vlib/spies.py) at a
 sweep of sizes; the number of items read while deciding must be identical at every size >= 1 and
 bounded by a constant computed from the hint alone."""
+import typing
+
 from hypothesis import strategies as st
 
 from beartype import beartype
@@ -38,8 +40,28 @@ QUASI = ['Iterable', 'Container', 'Reversible']
 MAPS = ['dict', 'Mapping', 'MutableMapping', 'OrderedDict', 'defaultdict']
 
 
+class GIntList(list[int]):
+    """User generic with one unerased base: as an item hint it is checked where the enclosing container is sampled."""
+    __hash__ = object.__hash__   # may be an item of a set
+
+
+class GStrIntDict(dict[str, int]):
+    __hash__ = object.__hash__
+
+
+class GTwoBases(list[int], typing.Collection[int]):
+    """Two unerased bases: two checks of the one sampled item."""
+    __hash__ = object.__hash__
+
+
+H.CLASSES.update(GIntList=GIntList, GStrIntDict=GStrIntDict, GTwoBases=GTwoBases)
+GENERIC_LEAVES = {'GIntList': lambda j: GIntList([j, j + 1]), 'GStrIntDict': lambda j: GStrIntDict({'k%d' % j: j}),
+                  'GTwoBases': lambda j: GTwoBases([j])}
+
+
 def hints(depth):
-    leaf = st.sampled_from([['cls', 'int'], ['cls', 'str'], ['cls', 'VBase']])
+    # (user generics are small plain objects here: their own items are not counted, the reads of the spy container holding them are)
+    leaf = st.sampled_from([['cls', 'int'], ['cls', 'str'], ['cls', 'VBase'], ['cls', 'GIntList'], ['cls', 'GTwoBases'], ['cls', 'GStrIntDict']])
     key = st.sampled_from([['cls', 'int'], ['cls', 'str']])
     if depth <= 0:
         child = leaf
@@ -146,6 +168,8 @@ def strategy(tier):
 def _leaf(name, j, bad):
     if bad:
         return H.VAlien()
+    if name in GENERIC_LEAVES:
+        return GENERIC_LEAVES[name](j)
     return {'int': j, 'str': 's%d' % j, 'VBase': H.VBase()}[name]
 
 
